@@ -3,9 +3,11 @@ package checks
 import (
 	"bytes"
 	"fmt"
+	"strings"
 	"time"
 
 	"github.com/talostrading/sonic/codec/websocket"
+	"github.com/talostrading/sonic/sonicerrors"
 
 	"verif/internal/vf"
 	"verif/internal/wsref"
@@ -21,6 +23,10 @@ type c15Mutant struct {
 	framing bool // a framing-rule violation: every API must report it, Close(1002) + refusal of writes
 	msgOnly bool // a fragmentation-rule / message-size violation: message-level APIs only
 }
+
+// c15Inside is what the payload of an over-maximum frame starts with: bytes that would parse as a complete, conforming
+// text frame if the reader ever took the rejected frame's payload for the continuation of the stream.
+var c15Inside = wsref.Frame{Fin: true, Opcode: wsref.OpText, Payload: []byte("inside the rejected frame")}.Encode()
 
 func c15Run(c *vf.Case, msgs []wsMsg, events []wsEvent, k int, mut c15Mutant, wire []byte, cuts []int, api string, maxSize int, deferReads bool, preClosed bool, label string) {
 	s, t := newWS(c)
@@ -162,6 +168,52 @@ func c15Run(c *vf.Case, msgs []wsMsg, events []wsEvent, k int, mut c15Mutant, wi
 	}
 	c.Cover("errors_by_class", fmt.Sprintf("%s: %v", mut.class, reportedErr))
 	c.Count("violations_reported", 1)
+	if strings.HasPrefix(mut.class, "frame-over-max-") && mut.class != "frame-over-max-64" {
+		// the application reads again after the rejection: whatever that read reports, it never delivers application data
+		// taken from inside the rejected frame
+		var err error
+		var data []byte
+		isData := false
+		if frameAPI {
+			var f websocket.Frame
+			if async {
+				calls := 0
+				s.AsyncNextFrame(func(e error, g websocket.Frame) { calls++; err = e; f = append(websocket.Frame(nil), g...) })
+				wait(&calls)
+				if calls == 0 {
+					err = sonicerrors.ErrWouldBlock
+				}
+			} else {
+				var g websocket.Frame
+				g, err = s.NextFrame()
+				f = append(websocket.Frame(nil), g...)
+			}
+			if err == nil && len(f) >= 2 && (f.Opcode() == websocket.OpcodeText || f.Opcode() == websocket.OpcodeBinary || f.Opcode() == websocket.OpcodeContinuation) {
+				isData, data = true, f.Payload()
+			}
+		} else {
+			buf := make([]byte, 4*maxSize+64)
+			n := 0
+			if async {
+				calls := 0
+				s.AsyncNextMessage(buf, func(e error, nn int, _ websocket.MessageType) { calls++; err, n = e, nn })
+				wait(&calls)
+				if calls == 0 {
+					err = sonicerrors.ErrWouldBlock
+				}
+			} else {
+				_, n, err = s.NextMessage(buf)
+			}
+			if err == nil {
+				isData, data = true, buf[:n]
+			}
+		}
+		c.Count("reads_after_an_over_maximum_rejection", 1)
+		if isData {
+			fail("data-delivered-after-over-maximum-rejection", "the read after the rejection returned %d bytes of application data (%q) and no error: bytes of the rejected frame's payload were parsed as frames", len(data), string(data[:min(len(data), 40)]))
+			return
+		}
+	}
 	if !mut.framing {
 		return
 	}
@@ -290,11 +342,13 @@ func runC15(c *vf.Case) {
 		mut.msgOnly = true
 	case "frame-over-max-7":
 		e.F.Payload = r.Bytes(r.Range(maxSize+1, 125))
+		copy(e.F.Payload, c15Inside)
 	case "frame-over-max-16":
 		if maxSize >= 65535 {
 			maxSize = 1000
 		}
 		e.F.Payload = r.Bytes(maxSize + 1 + r.Intn(50))
+		copy(e.F.Payload, c15Inside)
 	case "frame-over-max-64":
 		d := uint64(maxSize) + 1 + uint64(r.Intn(1000))
 		if d <= 65535 {
